@@ -5,6 +5,7 @@ package main
 import (
 	"fmt"
 	"go/ast"
+	"go/token"
 	"go/types"
 	"sort"
 	"strings"
@@ -282,7 +283,7 @@ func rulePANIC4(c *Ctx) {
 		"tengo/updateMaxDefs": "walks the chain of enclosing block scopes", "tengo/BuiltinSymbols": "walks the chain of enclosing scopes", "tengo/DefineBuiltin": "walks the chain of enclosing scopes",
 		"parser/Pos": "walks the left spine of an expression tree", "parser/End": "walks the right spine of an expression tree", "parser/String": "prints the tree (trace mode only)",
 		"tengo/resolveAssignLHS": "walks the selector chain of an assignment target",
-		"tengo/addConstant": "walks the chain of importing compilers", "tengo/checkCyclicImports": "walks the chain of importing compilers",
+		"tengo/addConstant":      "walks the chain of importing compilers", "tengo/checkCyclicImports": "walks the chain of importing compilers",
 		"tengo/loadCompiledModule": "walks the chain of importing compilers", "tengo/storeCompiledModule": "walks the chain of importing compilers",
 		"tengo/Copy": "host-supplied module objects (AsImmutableMap copies attributes)", "tengo/CountObjects": "walks constants built by the compiler", "tengo/FromInterface": "walks a host-supplied Go value",
 	}
@@ -376,8 +377,45 @@ func ruleSHARE(c *Ctx) {
 		}
 		for _, b := range fn.Blocks {
 			for _, ins := range b.Instrs {
+				// element writes through a container held in a field of a shared object
+				sharedHolder := func(v ssa.Value) (string, string, bool) {
+					if sl, ok := v.(*ssa.Slice); ok {
+						v = sl.X
+					}
+					u, ok := v.(*ssa.UnOp)
+					if !ok || u.Op != token.MUL {
+						return "", "", false
+					}
+					fa, ok := u.X.(*ssa.FieldAddr)
+					if !ok {
+						return "", "", false
+					}
+					stt, ok := derefStruct(fa.X.Type())
+					if !ok {
+						return "", "", false
+					}
+					tn, pk := namedName(fa.X.Type())
+					if pk == nil || !shared[pk.Name()+"."+tn] || isLocalAlloc(fa.X) {
+						return "", "", false
+					}
+					return tn, stt.Field(fa.Field).Name(), true
+				}
+				if mu, ok := ins.(*ssa.MapUpdate); ok {
+					if tn, fn2, ok := sharedHolder(mu.Map); ok {
+						nStores++
+						c.fail(seq.next("shared-write/"+w.ctxKey(mu.Pos())+"/"+tn+"."+fn2+"[]"), &posNode{mu.Pos()}, fmt.Sprintf("an element of the map %s.%s is written in a function reachable from VM.Run on an object that may be a constant shared by all clones of a compiled script: concurrent clones race on it (concurrent map write is fatal)", tn, fn2))
+					}
+					continue
+				}
 				st, ok := ins.(*ssa.Store)
 				if !ok {
+					continue
+				}
+				if ia, ok := st.Addr.(*ssa.IndexAddr); ok {
+					if tn, fn2, ok := sharedHolder(ia.X); ok {
+						nStores++
+						c.fail(seq.next("shared-write/"+w.ctxKey(st.Pos())+"/"+tn+"."+fn2+"[]"), &posNode{st.Pos()}, fmt.Sprintf("an element of %s.%s is written in a function reachable from VM.Run on an object that may be a constant shared by all clones of a compiled script: concurrent clones race on it", tn, fn2))
+					}
 					continue
 				}
 				switch a := st.Addr.(type) {
